@@ -11,7 +11,7 @@
   in : PROTO <id> acts=<a1,a2,…>     allocator protocol scenario (see `parseAct`)
   out: PM <id> rank=<n> fixed_final=<0|1> fixed_unique=<0|1> cur_deadlock=<0|1> cur_forced=<ok|hang> ids=<…>
 -/
-import BMV.Bondgo
+import BMV.Proofs.Bondgo
 import BMV.BondgoProto
 import BMV.Lines
 open BMV.Lines
@@ -192,7 +192,9 @@ def doProg (line : String) (fs : List String) : List String × Option (String ×
       -- Usage_Monitor keeps the largest cell number ever handed out (+1), block-local cells included
       let ramN := maxList ((memCells (allLocs p)).map (· + 1))
       let ns := findN env w code src.1 src.2 steps
-      ([ s!"M {id} asm={";".intercalate (code.map Instr.text)}",
+      -- the hypotheses of `compile_correct_wf` / `compile_correct_full`, evaluated on this program
+      ([ s!"WF {id} wf={b2s (wfProg p)} scoped={b2s (scopedProg p)}",
+        s!"M {id} asm={";".intercalate (code.map Instr.text)}",
         s!"MR {id} regs={regCount code} ram={ramN} rom={code.length} ops={",".intercalate (opcodes code)}",
         srcLine,
         s!"MRUN {id} end={b2s run.2} outs={outsStr run.1} nstar={match ns with | some n => toString n | none => "-"}" ],
